@@ -234,7 +234,12 @@ func (it *Interp) loadVector(path string) error {
 	if err := json.Unmarshal(data, &doc); err != nil {
 		return err
 	}
-	it.vector = doc.Vector
+	it.vector = nil
+	for _, item := range doc.Vector {
+		if item.Kind != "lockorder" {
+			it.vector = append(it.vector, item)
+		}
+	}
 	if it.vector == nil {
 		it.vector = []replayItem{}
 	}
